@@ -7,25 +7,34 @@ Open Scope N_scope.
 
 Definition pinned_virtual : backend := {|
   b_store := [ONorm; OSlash; OFold]; b_get := [ONorm; OSlash; OFold]; b_exists := [ONorm; OSlash; OFold];
-  b_open := [ONorm; OSlash; OFold]; b_wfolder := [ONorm; OSlash; OFold]; b_wsubj := SOrig; b_wsubj_ops := [] |}.
+  b_open := [ONorm; OSlash; OFold]; b_wsrc := WDict; b_wfolder := [ONorm; OSlash; OFold]; b_wsubj := SOrig; b_wsubj_ops := [] |}.
 Definition pinned_zip : backend := {|
   b_store := [OFold]; b_get := [OSlash; OFold]; b_exists := [OSlash; OFold]; b_open := [OSlash; OFold];
-  b_wfolder := [OSlash; OFold]; b_wsubj := SKey; b_wsubj_ops := [] |}.
+  b_wsrc := WDict; b_wfolder := [OSlash; OFold]; b_wsubj := SKey; b_wsubj_ops := [] |}.
 Definition pinned_vpk : backend := {|
   b_store := [OSlash; OFold]; b_get := [OFold; OSlash]; b_exists := [OFold; OSlash]; b_open := [OFold; OSlash];
-  b_wfolder := [OSlash]; b_wsubj := SDir; b_wsubj_ops := [] |}.
+  b_wsrc := WDict; b_wfolder := [OSlash]; b_wsubj := SDir; b_wsubj_ops := [] |}.
 
 Definition s_mat : str := [109; 97; 116].                                (* "mat" *)
 Definition s_materials_x : str := [109; 97; 116; 101; 114; 105; 97; 108; 115; 47; 120].   (* "materials/x" *)
 Definition s_Mat_x : str := [77; 97; 116; 47; 120].                       (* "Mat/x" *)
 
 Definition fixed_virtual : backend := {|
+  b_store := [OSlash; ONorm; OSlash; OFold]; b_get := [OSlash; ONorm; OSlash; OFold];
+  b_exists := [OSlash; ONorm; OSlash; OFold]; b_open := [OSlash; ONorm; OSlash; OFold];
+  b_wsrc := WDict; b_wfolder := [OSlash; ONorm; OSlash; OFold; ODotEmpty; ORStrip; OAddSlash]; b_wsubj := SKey; b_wsubj_ops := [] |}.
+Definition fixed_zip : backend := {|
+  b_store := [OFold]; b_get := [OSlash; OSlash; ONorm; OSlash; OFold]; b_exists := [OSlash; ONorm; OSlash; OFold];
+  b_open := [OSlash; OSlash; ONorm; OSlash; OFold];
+  b_wsrc := WDict; b_wfolder := [OSlash; ONorm; OSlash; OFold; ODotEmpty; ORStrip; OAddSlash]; b_wsubj := SKey; b_wsubj_ops := [] |}.
+(** the repaired forms of round 1 (Virtual normalising on '/' only, Zip without normpath) stay sound for walks *)
+Definition round1_virtual : backend := {|
   b_store := [ONorm; OSlash; OFold]; b_get := [ONorm; OSlash; OFold]; b_exists := [ONorm; OSlash; OFold];
   b_open := [ONorm; OSlash; OFold];
-  b_wfolder := [ONorm; OSlash; OFold; ODotEmpty; ORStrip; OAddSlash]; b_wsubj := SKey; b_wsubj_ops := [] |}.
-Definition fixed_zip : backend := {|
+  b_wsrc := WDict; b_wfolder := [ONorm; OSlash; OFold; ODotEmpty; ORStrip; OAddSlash]; b_wsubj := SKey; b_wsubj_ops := [] |}.
+Definition round1_zip : backend := {|
   b_store := [OFold]; b_get := [OSlash; OFold]; b_exists := [OSlash; OFold]; b_open := [OSlash; OFold];
-  b_wfolder := [OSlash; OFold; ORStrip; OAddSlash]; b_wsubj := SKey; b_wsubj_ops := [] |}.
+  b_wsrc := WDict; b_wfolder := [OSlash; OFold; ORStrip; OAddSlash]; b_wsubj := SKey; b_wsubj_ops := [] |}.
 
 Lemma order_matters_for_case_duplicates : exists fs fs' q,
   Permutation fs fs' /\ clean_fs fs = true /\ spec_lookup fs q <> spec_lookup fs' q.
@@ -62,9 +71,73 @@ Lemma premises_satisfiable :
   /\ walk fixed_zip [(s_materials_x, [1]); (s_Mat_x, [2])] [] = [(s_materials_x, [1]); (s_Mat_x, [2])].
 Proof. repeat split; reflexivity. Qed.
 
+Lemma round1_forms_ok :
+  walk_ok round1_virtual = true /\ backend_keys_ok round1_virtual = true
+  /\ walk_ok round1_zip = true /\ backend_keys_ok round1_zip = true
+  /\ backend_keys_norm round1_virtual = false /\ backend_keys_norm round1_zip = false
+  /\ backend_keys_norm fixed_virtual = true /\ backend_keys_norm fixed_zip = true.
+Proof. repeat split; reflexivity. Qed.
+
+Lemma lookup_unnormalised_refuted :
+  let fs := [([120], [1])] in
+  lookup pinned_virtual fs [46; 47; 120] = Some ([120], [1]) /\ lookup pinned_zip fs [46; 47; 120] = None
+  /\ lookup pinned_vpk fs [46; 47; 120] = None /\ lookup pinned_virtual fs [46; 92; 120] = None
+  /\ backend_keys_norm pinned_virtual = false /\ backend_keys_norm pinned_zip = false
+  /\ backend_keys_norm fixed_virtual = true /\ lookup fixed_virtual fs [46; 92; 120] = Some ([120], [1]).
+Proof. repeat split; reflexivity. Qed.
+
 Lemma chain_relpath_case_refuted :
   let m := member_of fixed_zip [([109; 97; 116; 47; 120], [])] [77; 97; 116] in
   map fst (chain_walk_repeat RelPath [m] []) = [[46; 46; 47; 109; 97; 116; 47; 120]]
   /\ map fst (chain_walk_repeat RelDropSegs [m] []) = [[120]].
 Proof. split; reflexivity. Qed.
 
+
+(** ** round 2: shapes of [walk_folder] that the translator recognises but that are unsound *)
+
+(** VPKFileSystem.walk_folder looping over [self.vpk.fileinfos(folder=folder.rstrip('/'))] and then testing the
+    case-folded file name: the container compares its directory names as stored. *)
+Definition prefilter_vpk : backend := {|
+  b_store := [OSlash; OFold]; b_get := [OFold; OSlash]; b_exists := [OFold; OSlash]; b_open := [OFold; OSlash];
+  b_wsrc := WCont (Some [OSlash; OFold; ORStrip; OAddSlash; ORStrip]);
+  b_wfolder := [OSlash; OFold; ORStrip; OAddSlash]; b_wsubj := SOrig; b_wsubj_ops := [OFold] |}.
+(** ... and looping over the container itself (no pre-filter): every stored file is visited, also those the folded
+    dictionary dropped. *)
+Definition container_vpk : backend := {|
+  b_store := [OSlash; OFold]; b_get := [OFold; OSlash]; b_exists := [OFold; OSlash]; b_open := [OFold; OSlash];
+  b_wsrc := WCont None;
+  b_wfolder := [OSlash; OFold; ORStrip; OAddSlash]; b_wsubj := SOrig; b_wsubj_ops := [OFold] |}.
+
+Lemma walk_prefilter_case_refuted :
+  prefilter_case_sensitive prefilter_vpk = true /\ walk_ok prefilter_vpk = false
+  /\ walk prefilter_vpk [(s_Mat_x, [])] s_mat = []
+  /\ lookup prefilter_vpk [(s_Mat_x, [])] (s_mat ++ [47; 120]) = Some (s_Mat_x, [])
+  /\ walk prefilter_vpk [(s_Mat_x, [])] [] = [(s_Mat_x, [])].
+Proof. repeat split; reflexivity. Qed.
+
+Lemma walk_container_duplicates_refuted :
+  walk_ok container_vpk = false
+  /\ walk container_vpk [(s_Mat_x, [1]); (s_mat ++ [47; 120], [2])] s_mat = [(s_Mat_x, [1]); (s_mat ++ [47; 120], [2])]
+  /\ lookup container_vpk [(s_Mat_x, [1]); (s_mat ++ [47; 120], [2])] s_Mat_x = Some (s_mat ++ [47; 120], [2]).
+Proof. repeat split; reflexivity. Qed.
+
+(** De-duplication by unconditional dict store: the name is listed once, at the position of the first member, but with
+    the File of the last one - which is not what the chain's lookup returns. *)
+Lemma chain_walk_overwrite_refuted :
+  let m1 := member_of fixed_zip [([120], [1])] [] in
+  let m2 := member_of fixed_zip [([120], [2])] [] in
+  chain_walk_mode DedupOverwrite RelDropSegs [OFold] [m1; m2] [] = [([120], ([120], [2]))]
+  /\ chain_get [m1; m2] [120] = Some ([120], [1])
+  /\ chain_walk_mode DedupSkip RelDropSegs [OFold] [m1; m2] [] = [([120], ([120], [1]))].
+Proof. repeat split; reflexivity. Qed.
+
+(** Today's [add_sys] (priority: insert(0, ...), otherwise append) is [add_sys 0]; with the branches swapped a
+    priority member is consulted last. *)
+Lemma add_sys2_today priority m ms : add_sys2 (InsertAt 0) Append priority m ms = add_sys 0 priority m ms.
+Proof. destruct priority; reflexivity. Qed.
+Lemma add_sys2_swapped_refuted :
+  let m1 := member_of fixed_zip [([120], [1])] [] in
+  let m2 := member_of fixed_zip [([120], [2])] [] in
+  chain_get (add_sys2 Append (InsertAt 0) true m2 [m1]) [120] = Some ([120], [1])
+  /\ chain_get (add_sys2 (InsertAt 0) Append true m2 [m1]) [120] = Some ([120], [2]).
+Proof. split; reflexivity. Qed.
